@@ -1474,7 +1474,7 @@ def _record(ex, args, kw, st):
 
 TABLE['record_'] = _record
 for _n in ('apsum', 'aperr', 'aparea', 'modelimg', 'apvalues', 'bkgest', 'apphot', 'cgrid', 'egrid', 'rgrid', 'modelval',
-           'apmask'):
+           'apmask', 'medfilt', 'selfilt'):
     TABLE[_n + '_'] = cl_uf(_n)
 
 
